@@ -1,6 +1,7 @@
 package chk
 
 import (
+	"go/token"
 	"fmt"
 	"go/types"
 	"sort"
@@ -118,3 +119,114 @@ func ruleWholeField(c *Ctx, r *Report, pkgs map[string]bool) int {
 }
 
 var _ = strings.HasPrefix
+
+// ---- T-MMCO: the operands of each memory management control operation (ITU-T H.264, 7.3.3.3) --------------------
+
+// mmcoOperands: number of ue(v) operands that follow memory_management_control_operation k in dec_ref_pic_marking():
+// 1 difference_of_pic_nums_minus1; 2 long_term_pic_num; 3 difference_of_pic_nums_minus1 and long_term_frame_idx;
+// 4 max_long_term_frame_idx_plus1; 5 none; 6 long_term_frame_idx.
+var mmcoOperands = map[int64]int{1: 1, 2: 1, 3: 2, 4: 1, 5: 0, 6: 1}
+
+// derivedFrom: v is root seen through conversions.
+func derivedFrom(v, root ssa.Value) bool {
+	for i := 0; i < 4; i++ {
+		if v == root {
+			return true
+		}
+		switch x := v.(type) {
+		case *ssa.Convert:
+			v = x.X
+		case *ssa.ChangeType:
+			v = x.X
+		default:
+			return false
+		}
+	}
+	return v == root
+}
+
+// ruleMMCOOperands (T-MMCO): in avc.ParseSliceHeader the value compared with at least four distinct constants including
+// 0 directly after an Exp-Golomb read is the memory management control operation; for each operation 1..6 the walk from
+// that read, taking every branch on the operation by its value, passes exactly the tabled number of Exp-Golomb reads
+// before the first branch on anything else. Returns the number of operation reads found.
+func ruleMMCOOperands(c *Ctx, r *Report, fnName string) int {
+	n := 0
+	for _, f := range c.RepoFuncs(nil) {
+		if SSAFuncName(f) != fnName {
+			continue
+		}
+		for _, b := range f.Blocks {
+			for idx, ins := range b.Instrs {
+				call, ok := ins.(*ssa.Call)
+				if !ok || !strings.HasSuffix(calleeName(&call.Call), ".ReadExpGolomb") {
+					continue
+				}
+				consts := map[int64]bool{}
+				for _, bb := range f.Blocks {
+					for _, in2 := range bb.Instrs {
+						bo, ok := in2.(*ssa.BinOp)
+						if !ok || bo.Op != token.EQL {
+							continue
+						}
+						if cv, ok := bo.Y.(*ssa.Const); ok && cv.Value != nil && derivedFrom(bo.X, call) {
+							consts[cv.Int64()] = true
+						}
+					}
+				}
+				if len(consts) < 4 || !consts[0] {
+					continue
+				}
+				n++
+				for _, op := range []int64{1, 2, 3, 4, 5, 6} {
+					key := fmt.Sprintf("%s:mmco=%d", fnName, op)
+					reads, why := 0, ""
+					cur, start := b, idx+1
+					for steps := 0; steps < 64 && why == ""; steps++ {
+						for _, in3 := range cur.Instrs[start:] {
+							if c3, ok := in3.(*ssa.Call); ok && strings.HasSuffix(calleeName(&c3.Call), "Golomb") {
+								reads++
+							}
+						}
+						start = 0
+						last := cur.Instrs[len(cur.Instrs)-1]
+						switch t := last.(type) {
+						case *ssa.Jump:
+							cur = cur.Succs[0]
+						case *ssa.If:
+							bo, ok := t.Cond.(*ssa.BinOp)
+							cv, isC := (*ssa.Const)(nil), false
+							if ok {
+								cv, isC = bo.Y.(*ssa.Const)
+							}
+							if !ok || !isC || cv.Value == nil || !derivedFrom(bo.X, call) || (bo.Op != token.EQL && bo.Op != token.NEQ) {
+								why = "end"
+								break
+							}
+							truth := (cv.Int64() == op) == (bo.Op == token.EQL)
+							if truth {
+								cur = cur.Succs[0]
+							} else {
+								cur = cur.Succs[1]
+							}
+						default:
+							why = "end"
+						}
+						if cur == b && why == "" {
+							why = "loop"
+						}
+					}
+					if why == "" {
+						r.Undecided("T-MMCO", key, c.Pos(call.Pos()), "the walk from the operation read did not end")
+						continue
+					}
+					if reads != mmcoOperands[op] {
+						r.Bad("T-MMCO", key, c.Pos(call.Pos()), fmt.Sprintf("memory_management_control_operation %d is followed by %d Exp-Golomb operands in the parser, H.264 7.3.3.3 has %d: every later field of the slice header is read from the wrong bit position", op, reads, mmcoOperands[op]))
+					} else {
+						r.OK("T-MMCO", key, c.Pos(call.Pos()), fmt.Sprintf("operation %d is followed by %d Exp-Golomb operands as in H.264 7.3.3.3", op, reads))
+					}
+				}
+			}
+		}
+	}
+	return n
+}
